@@ -24,6 +24,14 @@ def bor (a b : Int) : Except Exc Int :=
 def band (a b : Int) : Except Exc Int :=
   if 0 ≤ a ∧ 0 ≤ b then .ok ((a.toNat &&& b.toNat : Nat) : Int) else .error .other
 
+/-- `a << k` on a non-negative int -/
+def shl (a : Int) (k : Nat) : Except Exc Int :=
+  if 0 ≤ a then .ok (a * 2 ^ k) else .error .other
+
+/-- `a >> k` on a non-negative int -/
+def shr (a : Int) (k : Nat) : Except Exc Int :=
+  if 0 ≤ a then .ok (a / 2 ^ k) else .error .other
+
 /-- `buffer[0]` of a bytes object: IndexError when empty -/
 def first : List UInt8 → Except Exc Int
   | [] => .error .indexError
